@@ -154,16 +154,43 @@ def register(w):
     E3 = f"forall[Node](lambda n: implies(n in {A} and not (n in old({A})), exists[int](lambda i: 0 <= i and i < len(states_to_enter) and anc(n, states_to_enter[i]))))"
     ANN_E = f"implies(forall[Node](lambda n: implies(n in old({A}), n != None)), forall[Node](lambda n: implies(n in {A}, n != None)))"
 
+    P0 = f"fresh_forest(states_to_enter, old({A}))"
+    L_ = "states_to_enter"
+    FOREST_INV = [
+        f"implies({P0}, forall[Node](lambda n: implies(n in {A} and not (n in old({A})), exists[int](lambda j: 0 <= j and j < _i and anc(n, {L_}[j])))))",
+        f"implies({P0}, forall[Node](lambda n: implies(n in {A} and not (n in old({A})), (exists[int](lambda j: 0 <= j and j < _i and n == {L_}[j]) or n.parent in {A}) and okn(n, {A}))))",
+        f"implies({P0}, forall[int, Node](lambda j, n: implies(_i <= j and j < len({L_}) and anc(n, {L_}[j]), not (n in {A}))))",
+    ]
+
+    # lemmas around the two recursive calls of the default descent (proved where they stand, then available to the
+    # invariant step): the list handed down is itself a fresh forest, and afterwards the state just entered is locally legal
+    SUBTREE_EMPTY = f"assert implies({P0}, forall[Node](lambda n: implies(anc(n, state) and n != state, not (n in {A}))))"
+    HINTS_CHILD_BEFORE = [
+        SUBTREE_EMPTY,
+        f"assert implies({P0}, state in {A} and initial_child.parent == state and initial_child.type != 'history')",
+        f"assert implies({P0}, forall[Node](lambda n: implies(anc(n, initial_child), not (n in {A}))))",
+    ]
+    HINTS_REGIONS_BEFORE = [
+        SUBTREE_EMPTY,
+        f"assert implies({P0}, state in {A} and forall[int](lambda i: implies(0 <= i and i < len(regions), regions[i] != None and regions[i].parent == state and regions[i].type != 'history')))",
+        f"assert implies({P0}, forall[int, int](lambda i, j: implies(0 <= i and i < len(regions) and 0 <= j and j < len(regions) and i != j, regions[i] != regions[j] and not anc(regions[i], regions[j]))))",
+        f"assert implies({P0}, forall[int, Node](lambda i, n: implies(0 <= i and i < len(regions) and anc(n, regions[i]), not (n in {A}))))",
+    ]
+    HINTS_AFTER = [f"assert implies({P0}, okn(state, {A}))"]
+
     def enter_clauses(c):
         c.param("states_to_enter", ListSort(Node)).param("event", Ev)
         c.defaults = {"event": "None"}
         c.mod(*ENTER_MODS)                      # NOT self._history: entering never records history
         c.req(LISTED_NN)
         c.req("ghost:self._is_processing")      # entry actions run while an event is being processed
-        # contract E proper (the configuration is legal again) is NOT proved; it is assumed in the one shape start() uses and
-        # evaluated at run time by bounded.c01/c03.  What IS proved for the sync body: E1-E3 below, the queue / status / wf clauses.
-        c.ens(f"implies(len(states_to_enter) == 1 and states_to_enter[0] == root and forall[Node](lambda n: not (n in old({A}))), legal({A}))",
-              label="assume:entering-the-root-into-an-empty-configuration-yields-a-legal-one")
+        # contract E (the configuration is legal again) is proved for fresh forests (below); for the path shape that a
+        # transition enters it remains the one assumed clause of _process_event
+        # contract E for the shape of start() and of every recursive call (proved): each newly active state hangs below an
+        # active state and is locally legal - its compound / parallel / history conditions hold in the new configuration
+        c.ens(f"implies(fresh_forest(states_to_enter, old({A})), forall[Node](lambda n: implies(n in {A} and not (n in old({A})), "
+              f"(exists[int](lambda i: 0 <= i and i < len(states_to_enter) and n == states_to_enter[i]) or n.parent in {A}) and okn(n, {A}))))",
+              label="a-fresh-forest-is-entered-legally")
         c.ens(E1, label="entering-exits-nothing")
         c.ens(E2, label="every-listed-state-is-entered")
         c.ens(E3, label="only-listed-states-and-their-descendants-are-entered")
@@ -190,13 +217,22 @@ def register(w):
         c.label_props = {"every-entered-state-has-its-tasks-scheduled": ["C08", "C09", "C01"]}
         c.ens("forall[int](lambda i: implies(0 <= i and i < len(states_to_enter), final_scheduled[states_to_enter[i]]))",
               label="ghost:every-entered-state-has-its-tasks-scheduled")
-        c.before("self._enter_states([initial_child], event)", "ghostarg_hb = height(state)")
-        c.before("self._enter_states(regions, event)", "ghostarg_hb = height(state)")
+        c.before("self._enter_states([initial_child], event)", "ghostarg_hb = height(state)", *HINTS_CHILD_BEFORE)
+        c.after("self._enter_states([initial_child], event)",
+                f"assert initial_child != None",
+                f"assert initial_child in {A}",
+                f"assert initial_child.parent == state",
+                f"assert implies({P0}, forall[Node](lambda c: implies(c in {A} and c != None and c.parent == state, anc(c, initial_child))))",
+                f"assert implies({P0}, forall[Node](lambda c: implies(c in {A} and c != None and c.parent == state, c == initial_child)))",
+                *HINTS_AFTER)
+        c.before("self._enter_states(regions, event)", "ghostarg_hb = height(state)", *HINTS_REGIONS_BEFORE)
+        c.after("self._enter_states(regions, event)", *HINTS_AFTER)
         c.loop(0, inv=[
             f"forall[Node](lambda n: implies(n in old({A}), n in {A}))",
             f"forall[int](lambda j: implies(0 <= j and j < _i, states_to_enter[j] in {A}))",
             E3, APP_E, "status_reach(old(self.status), self.status)", ANN_E,
             "forall[int](lambda j: implies(0 <= j and j < _i, scheduled[states_to_enter[j]]))",
+            *FOREST_INV,
         ])
 
     @w.contract(BI + "_enter_states", props=["C01", "C03", "C05", "C09"])
@@ -213,14 +249,21 @@ def register(w):
         c.label_props = {"every-entered-state-has-its-tasks-scheduled": ["C09", "C01"]}
         c.ens("forall[int](lambda i: implies(0 <= i and i < len(states_to_enter), final_scheduled[states_to_enter[i]]))",
               label="ghost:every-entered-state-has-its-tasks-scheduled")
-        c.before("await self._enter_states([initial_child], trigger_event)", "ghostarg_hb = height(state)")
-        c.before("await self._enter_states(regions, trigger_event)", "ghostarg_hb = height(state)")
+        c.before("await self._enter_states([initial_child], trigger_event)", "ghostarg_hb = height(state)", *HINTS_CHILD_BEFORE)
+        c.after("await self._enter_states([initial_child], trigger_event)",
+                f"assert initial_child != None", f"assert initial_child in {A}", f"assert initial_child.parent == state",
+                f"assert implies({P0}, forall[Node](lambda c: implies(c in {A} and c != None and c.parent == state, anc(c, initial_child))))",
+                f"assert implies({P0}, forall[Node](lambda c: implies(c in {A} and c != None and c.parent == state, c == initial_child)))",
+                *HINTS_AFTER)
+        c.before("await self._enter_states(regions, trigger_event)", "ghostarg_hb = height(state)", *HINTS_REGIONS_BEFORE)
+        c.after("await self._enter_states(regions, trigger_event)", *HINTS_AFTER)
         c.loop(0, inv=[
             f"forall[Node](lambda n: implies(n in old({A}), n in {A}))",
             f"forall[int](lambda j: implies(0 <= j and j < _i, states_to_enter[j] in {A}))",
             E3, APP_E, "status_reach(old(self.status), self.status)", ANN_E,
             "forall[int](lambda j: implies(0 <= j and j < _i, scheduled[states_to_enter[j]]))",
             "trigger_event != None",
+            *FOREST_INV,
         ])
 
     @w.contract(BI + "_resolve_output", props=["C10"])
